@@ -896,3 +896,46 @@ Proof.
   split; [rewrite HL; apply in_or_app; left; assumption|].
   exists rc. split; [apply Hrc; assumption|assumption].
 Qed.
+
+(* S4 (progress): the first completion of stage k, with a cooperative environment for stage k+1,
+   records k's result and submits stage k+1 -- or completes the pipeline if k was the last stage *)
+Lemma sys_progress c : c = std_consts -> forall ops y,
+  sys_run c init_sys ops = Some y ->
+  forall k res e s, w_pipe (y_world y) = Some s ->
+  In (EvSubmit k) (w_log (y_world y)) -> ~ In (EvMarkComplete k) (w_log (y_world y)) -> env_ok e = true ->
+  let w2 := complete_world c (y_world y) k res e in
+  exists s2, w_pipe w2 = Some s2 /\ p_stage s2 = k + 1 /\ recorded_rc s2 k = Some res /\
+    ((k < nstages s /\ In (EvSubmit (k + 1)) (w_log w2)) \/ (k = nstages s /\ p_complete s2 = true)).
+Proof.
+  intros -> ops y Hrun k res e s Hp Hsub Hnm Hok.
+  destruct (sinv_run ops init_sys y sinv_init Hrun) as (Hinv & Hord & _).
+  set (w0 := y_world y) in *. unfold inv in Hinv. rewrite Hp in Hinv.
+  assert (Hk : 1 <= k <= p_stage s /\ k <= nstages s).
+  { destruct Hinv as (_ & _ & _ & _ & _ & [_ Hf] & _). rewrite Forall_forall in Hf.
+    apply submitted_In in Hsub. specialize (Hf k Hsub). lia. }
+  assert (Hstage : p_stage s = k).
+  { destruct (Z.eq_dec (p_stage s) k) as [|Hne]; [assumption|exfalso].
+    destruct Hinv as (_ & _ & _ & Hkeys & _).
+    assert (Hin : In (k + 1) (map fst (advanced (w_log w0)))) by (rewrite Hkeys, zseq_In; lia).
+    apply in_map_iff in Hin. destruct Hin as ([k' rc] & Hk' & Hin). cbn in Hk'. subst k'.
+    apply advanced_In in Hin. destruct (in_split _ _ Hin) as (pre & post & HL).
+    pose proof (Hord pre _ post HL) as HJ. cbn in HJ. replace (k + 1 - 1) with k in HJ by lia.
+    apply Hnm. rewrite HL. apply in_or_app. left. apply HJ. }
+  unfold complete_world. cbn [c_after_mark c_hand std_consts].
+  set (wm := add_log w0 [EvMarkComplete k]).
+  assert (Hpm : w_pipe wm = Some s) by exact Hp.
+  assert (Hinvm : pinv s (w_log wm)).
+  { pose proof (inv_add_log w0 [EvMarkComplete k]) as H. unfold inv in H. fold wm in H. rewrite Hpm, Hp in H.
+    apply H; [repeat split|assumption]. }
+  clearbody wm. unfold step. rewrite Hpm.
+  destruct (next_some_spec (k + 1) res e s (w_log wm) Hinvm)
+    as [[Hne _]|[(_ & Hlast & _)|(_ & Hle & r & s' & evs & Heq & _ & Ha & Hs & Hr & Hcase)]]; try lia.
+  rewrite Heq. cbn [snd w_pipe w_log]. exists s'. split; [reflexivity|]. split; [assumption|].
+  split.
+  { destruct Hinvm as (_ & Hlen & _).
+    rewrite recorded_rc_nth by (rewrite Hr, set_nth_length, Hlen; unfold nstages in *; lia).
+    rewrite Hr, Hstage. apply nth_set_nth_eq. rewrite Hlen. unfold nstages in *. lia. }
+  destruct Hcase as [(Hkn & _ & Hcomp & _)|(Hkn & _ & _ & _ & Hsubm)].
+  - right. split; [lia|assumption].
+  - left. split; [lia|]. apply in_or_app. right. apply submitted_In. rewrite (Hsubm Hok). left. reflexivity.
+Qed.
